@@ -1,6 +1,6 @@
 (* C07 -- Totality.  ONLY property theorems here.  The general statement over the whole pipeline is NOT a theorem:
    tree-sitter, the CST->AST layer and the renderer are outside any Gallina model (see DESIGN.md section 8). *)
-From QV Require Import model.Base model.Lang model.Types model.Tir model.Builder model.Passes model.TirCase gen.GenE0 proofs.InterpProofs proofs.BuilderSafe proofs.BuilderSafeStmt proofs.BuilderSafeSwitch.
+From QV Require Import model.Base model.Lang model.Types model.Tir model.Builder model.Passes model.TirCase gen.GenE0 proofs.InterpProofs proofs.BuilderSafe proofs.BuilderSafeStmt proofs.BuilderSafeSwitch proofs.BuilderCfg.
 
 (* the constant interpreter terminates on EVERY code body, well-formed or not *)
 Theorem C07_interp_total : forall E c, evaluate_code E c <> OutOfFuel.
@@ -22,15 +22,16 @@ Qed.
 Print Assumptions C07_expressions_never_panic.
 (* ... and so do statements -- blocks, declarations, if / else, switch with case labels of any shape, default anywhere, fall-through and
    break, return, expression statements, in any nesting -- provided a default clause sits at a position between 0 and the number of cases
-   (what the parser produces).  The environment handed on names existing locals only. *)
+   (what the parser produces) and the label a `break` may jump to lies below the current block.  The environment handed on names existing
+   locals only. *)
 Theorem C07_statements_never_panic : forall E s, wfsw s = true -> forall env brk st,
-  Good st -> envwf (nloc st) env ->
+  Good st -> envwf (nloc st) env -> bound_of brk <= nb st ->
   match walk_stmt E env brk s st with
   | (P _, _) => False
   | (V (ok, env'), st') => RegB (nb st) st st' /\ envwf (nloc st') env'
   | (F, st') => RegB (nb st) st st'
   end.
-Proof. intros E s Hs env brk st G Hw. exact (walk_stmt_safe E s Hs env brk st (nb st) G Hw (le_n _)). Qed.
+Proof. intros E s Hs env brk st G Hw Hb. exact (walk_stmt_safe E s Hs env brk st (nb st) G Hw Hb (le_n _)). Qed.
 Print Assumptions C07_statements_never_panic.
 (* the whole translation of a binding or a handler (typedexpr.rs walk / walk_callback with the CodeBuilder visitor), from the initial builder
    state: for EVERY class environment and EVERY callback no assert, index or unwrap of typedexpr.rs / tir/builder.rs fires *)
@@ -38,6 +39,13 @@ Theorem C07_translator_never_panics : forall E cb, wf_callback cb = true ->
   match walk_callback E cb bstate0 with (P _, _) => False | _ => True end.
 Proof. exact walk_callback_never_panics. Qed.
 Print Assumptions C07_translator_never_panics.
+(* ... and neither does what follows it in tir::build / build_callback (finalize_completion_values: its asserts, its index and its work-list,
+   modelled with explicit fuel): the MODEL OF tir::build NEVER PANICS and never runs out of fuel, for every class environment and every
+   binding or handler.  Behind it: the translation ends with the current block open, every jump written targets an existing block and no
+   unconditional jump targets its own block; each block is then patched at most once *)
+Theorem C07_build_never_panics : forall E cb, wf_callback cb = true -> bu_panic (build_callback E cb) = None.
+Proof. exact build_never_panics. Qed.
+Print Assumptions C07_build_never_panics.
 (* the hypothesis is about something: a switch whose default stands in the middle, with a multi-block case label and a nested if *)
 Example C07_wf_example : wf_callback (CStmt (SSwitch (EInt 1)
     [(EInt 1, [SExpr (EInt 1)]); (ETernary (EBool true) (EInt 2) (EInt 3), [SIf (EBool true) (SBlock [SBreak false]) None])]
@@ -45,7 +53,10 @@ Example C07_wf_example : wf_callback (CStmt (SSwitch (EInt 1)
 Proof. reflexivity. Qed.
 (* the initial builder state is such a state *)
 Example C07_initial_state_good : Good bstate0.
-Proof. split; [apply le_n|]. exists block0. split; reflexivity. Qed.
+Proof.
+  split; [apply le_n|]. split; [exists block0; split; reflexivity|].
+  intros i b t Hi Hb. destruct i as [|[|i]]; cbn in Hi; try discriminate. inversion Hi; subst. discriminate.
+Qed.
 
 (* the inputs of the repaired findings F14 (interpreter reached unreachable!()) and F18 (empty switch) on the model of
    the repaired code: no Panic anywhere in build + finalize + interpret + dependency analysis *)
